@@ -16,7 +16,7 @@ cp "$src/demo_test.go" $out/demo_test.go
 wt=$(mktemp -d /tmp/seedwt.XXXXXX)
 git -C /repo worktree add -q --detach $wt HEAD
 suite="?"; demo_with="?"; demo_without="?"
-DEMOFLAGS=""; case "$id" in C19*) DEMOFLAGS="-race";; esac
+DEMOFLAGS=""; case "$id" in *C19*) DEMOFLAGS="-race";; esac
 ( cd $wt && git apply $out/patch.diff ) || { echo "patch does not apply"; git -C /repo worktree remove --force $wt; exit 2; }
 ( cd $wt && timeout 600 go test -vet=off -count=1 ./... >/tmp/seed_suite.out 2>&1 ) && suite=pass || suite=FAIL
 cp $out/demo_test.go $wt/zz_seed_demo_test.go
